@@ -1,6 +1,7 @@
 package dkg
 
 import (
+	"math/big"
 	"testing"
 	"time"
 
@@ -14,6 +15,17 @@ import (
 
 func c19GenPreParams(t *rapid.T) c19wire.Msg {
 	data := c19gen.GenLocalPreParams(t)
+	// Values of the type: every number of a pre-parameter set is a positive
+	// integer (Paillier modulus, safe primes, ...). A record with a zero
+	// number is what an empty or partially written file decodes to and is
+	// rejected by Unmarshal (fix fae5afe), so it is not in the round-trip
+	// domain; it stays in the hostile-input domain.
+	for _, n := range []**big.Int{&data.PaillierSK.N, &data.PaillierSK.LambdaN, &data.PaillierSK.PhiN,
+		&data.NTildei, &data.H1i, &data.H2i, &data.Alpha, &data.Beta, &data.P, &data.Q} {
+		if *n == nil || (*n).Sign() == 0 {
+			*n = big.NewInt(1)
+		}
+	}
 	var ts time.Time
 	switch rapid.IntRange(0, 3).Draw(t, "timeKind") {
 	case 0:
